@@ -56,7 +56,7 @@ ANCHORS = [
 ]
 STACKS = ['default', 'pydantic', 'docstring', 'pydantic+docstring', 'docstring+pydantic']
 KINDS_ = ['oas31', 'oas30', 'openrpc']
-FLOORS = {'*': {**{f'{k}:{s}': 5 for k in ('oas31', 'oas30') for s in STACKS},
+FLOORS = {'*': {'served:flask': 40, 'served:aiohttp': 40, 'served:several-endpoints': 20, 'served:openrpc': 15, 'served:oas31': 15, 'served:oas30': 15, **{f'{k}:{s}': 5 for k in ('oas31', 'oas30') for s in STACKS},
                 **{f'openrpc:{s}': 5 for s in ('default', 'pydantic', 'docstring')},
                 'shared-errors-list': 10, 'prefix-on-first-only': 5, 'prefix-on-later-only': 5, 'worker:oas31': 20, 'worker:oas30': 20,
                 'worker:openrpc': 20, 'isolation-comparisons': 100, 'repeat-generations': 100, 'view-method': 10,
@@ -592,6 +592,7 @@ def gen(ctx):
     full = ctx.thorough
     k = 0
     n_sets = 6000 if full else 330
+    served_sets = []
     for _ in range(n_sets):
         n = rng.randint(1, 4 if full else 3)
         methods = [random_method(rng, i) for i in range(n)]
@@ -622,6 +623,8 @@ def gen(ctx):
         if k % 5 == 0:
             for m in methods:
                 m['pd_config'] = True        # (on every method: the option belongs to the extractor, i.e. to the whole case)
+        if _ % (3 if full else 6) == 0:
+            served_sets.append((methods, prefixes))
         for kind in KINDS_:
             k += 1
             stacks = STACKS if kind != 'openrpc' else ['default', 'pydantic', 'docstring']
@@ -672,6 +675,28 @@ def gen(ctx):
             for stack in (STACKS if kind != 'openrpc' else ['default', 'pydantic', 'docstring']):
                 for sm in (False, True):
                     yield 'case', dict(kind=kind, stack=stack, methods=methods, prefixes=[''] * len(methods), status_map=sm, repeats=3)
+        served_sets.append((methods, [''] * len(methods)))
+        if len(methods) > 1:
+            served_sets.append((methods, [''] + ['/sub'] * (len(methods) - 1)))
+    yield from gen_served(ctx, served_sets)
 
 
-KINDS = {'case': run_case}
+def gen_served(ctx, method_sets):
+    """the document as an application publishes it: through the route a web integration adds for a specification object"""
+    from . import _c16_served
+    k = 0
+    for methods, prefixes in method_sets:
+        for integration in _c16_served.INTEGRATIONS:
+            k += 1
+            kind = KINDS_[k % 3]
+            stacks = STACKS if kind != 'openrpc' else ['default', 'pydantic', 'docstring']
+            yield 'served', dict(kind=kind, stack=stacks[(k // 3) % len(stacks)], methods=methods, prefixes=prefixes, integration=integration,
+                                 base=('/api', '/api/v1/', '/rpc', '/a/b/c')[(k // 2) % 4], status_map=bool(k % 5 == 0))
+
+
+def run_served(ctx, **kw):
+    from . import _c16_served
+    _c16_served.run_served(ctx, **kw)
+
+
+KINDS = {'case': run_case, 'served': run_served}
